@@ -31,6 +31,72 @@ def strip_docstring(body):
     return body
 
 
+_OP_BIN = {'add': ast.Add, 'sub': ast.Sub, 'mul': ast.Mult,
+           'truediv': ast.Div, 'floordiv': ast.FloorDiv, 'mod': ast.Mod,
+           'pow': ast.Pow, 'lshift': ast.LShift, 'rshift': ast.RShift,
+           'and_': ast.BitAnd, 'or_': ast.BitOr, 'xor': ast.BitXor,
+           'matmul': ast.MatMult}
+_OP_CMP = {'eq': ast.Eq, 'ne': ast.NotEq, 'lt': ast.Lt, 'le': ast.LtE,
+           'gt': ast.Gt, 'ge': ast.GtE, 'is_': ast.Is, 'is_not': ast.IsNot}
+_OP_UN = {'neg': ast.USub, 'pos': ast.UAdd, 'invert': ast.Invert,
+          'not_': ast.Not}
+
+
+def _operator_normal_form(tree):
+    """`operator.add(a, b)` and friends, *called directly*, are the infix
+    forms spelled differently: rewrite them so that every rule sees one
+    spelling.  (A function of the operator module passed on as a value is
+    left alone.)"""
+    mods, funcs = set(), {}
+    for st in tree.body:
+        if isinstance(st, ast.Import):
+            for a in st.names:
+                if a.name == 'operator':
+                    mods.add(a.asname or 'operator')
+        elif isinstance(st, ast.ImportFrom) and st.module == 'operator' \
+                and not st.level:
+            for a in st.names:
+                funcs[a.asname or a.name] = a.name
+    if not mods and not funcs:
+        return tree
+
+    class T(ast.NodeTransformer):
+        def visit_Call(self, n):
+            self.generic_visit(n)
+            f = n.func
+            name = None
+            if isinstance(f, ast.Attribute) and isinstance(
+                    f.value, ast.Name) and f.value.id in mods:
+                name = f.attr
+            elif isinstance(f, ast.Name) and f.id in funcs:
+                name = funcs[f.id]
+            if name is None or n.keywords or any(
+                    isinstance(a, ast.Starred) for a in n.args):
+                return n
+            name = name.strip('_') if name.startswith('__') else name
+            a = n.args
+            new = None
+            if name in _OP_BIN and len(a) == 2:
+                new = ast.BinOp(left=a[0], op=_OP_BIN[name](), right=a[1])
+            elif name in _OP_CMP and len(a) == 2:
+                new = ast.Compare(left=a[0], ops=[_OP_CMP[name]()],
+                                  comparators=[a[1]])
+            elif name in _OP_UN and len(a) == 1:
+                new = ast.UnaryOp(op=_OP_UN[name](), operand=a[0])
+            elif name == 'contains' and len(a) == 2:
+                new = ast.Compare(left=a[1], ops=[ast.In()],
+                                  comparators=[a[0]])
+            elif name == 'getitem' and len(a) == 2:
+                new = ast.Subscript(value=a[0], slice=a[1], ctx=ast.Load())
+            elif name == 'truth' and len(a) == 1:
+                new = ast.Call(func=ast.Name(id='bool', ctx=ast.Load()),
+                               args=[a[0]], keywords=[])
+            if new is None:
+                return n
+            return ast.fix_missing_locations(ast.copy_location(new, n))
+    return T().visit(tree)
+
+
 class FuncInfo:
     __slots__ = ('module', 'qualname', 'node', 'cls', 'parent_func',
                  'is_method')
@@ -96,7 +162,7 @@ class Module:
         self.path = path
         with open(path, encoding='utf-8') as f:
             self.src = f.read()
-        self.tree = ast.parse(self.src, filename=path)
+        self.tree = _operator_normal_form(ast.parse(self.src, filename=path))
         _attach_parents(self.tree)
         self.imports = {}     # local alias -> dotted target
         self.constants = {}   # top-level NAME = <expr>  (last assignment)
@@ -133,6 +199,25 @@ class Module:
                     if isinstance(t, ast.Name):
                         self.constants[t.id] = node.value
                         self.toplevel.add(t.id)
+                    elif isinstance(t, (ast.Tuple, ast.List)) and all(
+                            isinstance(x, ast.Name) for x in t.elts):
+                        # A, B, C = x, y, z   /   A, B, C = range(3)
+                        vals = None
+                        v = node.value
+                        if isinstance(v, (ast.Tuple, ast.List)) and len(
+                                v.elts) == len(t.elts):
+                            vals = list(v.elts)
+                        elif isinstance(v, ast.Call) and isinstance(
+                                v.func, ast.Name) and v.func.id == 'range' \
+                                and len(v.args) == 1 and isinstance(
+                                    v.args[0], ast.Constant) and \
+                                v.args[0].value == len(t.elts):
+                            vals = [ast.copy_location(ast.Constant(i), v)
+                                    for i in range(len(t.elts))]
+                        for i, x in enumerate(t.elts):
+                            self.toplevel.add(x.id)
+                            if vals is not None:
+                                self.constants[x.id] = vals[i]
             elif isinstance(node, (ast.FunctionDef, ast.ClassDef)):
                 self.toplevel.add(node.name)
         self._walk_defs(self.tree.body, '', None, None)
